@@ -253,9 +253,20 @@ pub fn search(seed: u64, budget: &Budget, thorough: bool) -> (u64, Option<(Strin
             for _ in 0..rng.below(4) { let i = rng.below(q.len() as u64) as usize; match rng.below(3) { 0 => { q[i] = *rng.pick(alpha); } 1 => { q.remove(i); } _ => { q.insert(i, *rng.pick(alpha)); } } if q.is_empty() { q.push(alpha[0]); } }
             let at = rng.below(t.len() as u64 + 1) as usize; let tail = t.split_off(at); t.extend(q); t.extend(tail);
         }
-        let k = *rng.pick(&[0usize, 1, 2, 3, 5, pl, pl + 3, 80]);
-        let t2 = rng.bytes(rng.below(40) as usize, alpha);
-        let k2 = rng.below(7) as usize;
+        let mut k = *rng.pick(&[0usize, 1, 2, 3, 5, pl, pl + 3, 80]);
+        let mut t2 = rng.bytes(rng.below(40) as usize, alpha);
+        let mut k2 = rng.below(7) as usize;
+        // reuse scenario: the first search runs over a long text unlike the pattern with a large threshold (the eager ring wraps and keeps
+        // columns with many blocks), the second text starts with a suffix of the pattern and the threshold admits the leading insertions
+        if rng.below(4) == 0 && pl >= 4 {
+            let other: u8 = *rng.pick(b"GXN");
+            t2 = vec![other; pl + pl / 2 + 6 + rng.below(30) as usize];
+            k2 = pl / 2 + rng.below(pl as u64 / 2 + 1) as usize;
+            let cut = 1 + rng.below(pl as u64 - 1) as usize;
+            let mut t3 = p[cut..].to_vec(); t3.extend(rng.bytes(rng.below(20) as usize, alpha));
+            t = t3;
+            k = cut + rng.below(3) as usize;
+        }
         let o = rng.next() >> 12;
         tried += 1;
         if let Err(e) = check(&p, &t, k, &t2, k2, o) { return (tried, Some((fmt(&p, &t, k, &t2, k2, o), e))); }
